@@ -147,8 +147,26 @@ def generate(tier, seed, info):
         m = ";".join("%x:%s" % (a, isa.hexb(b)) for a, b in mem.items())
         lines.append("id=%x kind=run tag=%x sock= pc=0 ccr=%x exit=%x er=%s mem=%s ops=run:%x" % (
             cid, tag, ccr, base + exit_off, ",".join("%x" % x for x in er), m, 600000 if long_run else 20000))
+    # crafted: the cumulative count reaches EXACTLY a multiple of 2,000,000 (only every third multiple is reachable, charges being
+    # multiples of 3): code in on-chip RAM (2 states per fetch): MOV.L #n,ER6 (6) ; L: DEC.L #1,ER6 (2) ; BNE L (4) ; fillers (2 each)
+    for variant in range(2):
+        base = 0xffc000
+        n = 333332
+        code = [0x7a, 0x06] + isa.w32(n) + [0x1b, 0x76, 0x46, 0xfc]
+        code += [0x0c, 0x00]                       # filler: total = 6 + 6n + 2 = 2,000,000 states -> 6,000,000 after x3
+        if variant == 1:
+            code += [0x0c, 0x11, 0x0c, 0x22]       # the multiple is passed in the middle of the run
+        exit_off = len(code)
+        code += [0x40, 0xfe]
+        er = [0] * 8
+        er[2] = base
+        er[7] = 0xffff00
+        cid += 1
+        lines.append("id=%x kind=run tag=%x sock= pc=0 ccr=80 exit=%x er=%s mem=%x:%s ops=run:%x" % (
+            cid, tag, base + exit_off, ",".join("%x" % x for x in er), base, isa.hexb(code), 0x100000))
     info["cases"] = len(lines)
     info["long_runs"] = n_long
+    info["exact_multiple_runs"] = 2
     return common.shard(lines)
 
 
